@@ -4,6 +4,7 @@ Shared by C01 (conformance of emitted annotations), C06 (TypedDict size limit at
 points) and, partly, C14/C17.
 """
 import collections
+import contextlib
 import datetime as _dt
 import io
 import json
@@ -118,16 +119,28 @@ class TeeStoreLogger:
         self.acked = True
 
 
-def make_config(path, k, rewriter_name, flt, logger_box, faults, sample_rate=None):
+def make_config(path, k, rewriter_name, flt, logger_box, faults, sample_rate=None, k_decoy=None):
     """A Config whose answers are read from a mutable `state` dict, so that ONE Config object can be
     reused across sessions whose settings differ (as a long-lived deployment would)."""
     from monkeytype.config import Config
     from monkeytype.db.base import CallTraceStoreLogger
     from monkeytype.db.sqlite import SQLiteStore
 
-    state = {"k": k, "faults": faults, "box": logger_box, "rate": sample_rate, "flt": flt, "rewriter": rewriter_name}
+    state = {"k": k, "faults": faults, "box": logger_box, "rate": sample_rate, "flt": flt, "rewriter": rewriter_name,
+             "in_ctx": 0, "k_decoy": k_decoy, "decoy_reads": 0, "ctx_entered": 0}
 
     class SimConfig(Config):
+        @contextlib.contextmanager
+        def cli_context(self, command):
+            # the documented place for project set-up (django.setup(), loading settings): the project's real limit is
+            # only visible while the command runs inside this context; before / after it the un-configured value is
+            state["in_ctx"] += 1
+            state["ctx_entered"] += 1
+            try:
+                yield
+            finally:
+                state["in_ctx"] -= 1
+
         def trace_store(self):
             return SQLiteStore.make_store(path)
 
@@ -143,6 +156,9 @@ def make_config(path, k, rewriter_name, flt, logger_box, faults, sample_rate=Non
             return state["rate"]
 
         def max_typed_dict_size(self):
+            if state["k_decoy"] is not None and not state["in_ctx"]:
+                state["decoy_reads"] += 1
+                return state["k_decoy"]
             return state["k"]
 
         def type_rewriter(self):
@@ -226,11 +242,11 @@ def run_sessions(plan, lp, workdir):
     return out, path
 
 
-def run_cli(argv_tail, path, k, rewriter_name, pre=()):
+def run_cli(argv_tail, path, k, rewriter_name, pre=(), k_decoy=None):
     """cli.main in-process with a synthetic config module. Returns (rc, stdout, stderr, exception)."""
     from monkeytype import cli
 
-    cfg = make_config(path, k, rewriter_name, None, [], None)
+    cfg = make_config(path, k, rewriter_name, None, [], None, k_decoy=k_decoy)
     mod = types.ModuleType("simcfg_verif")
     mod.CONFIG = cfg
     sys.modules["simcfg_verif"] = mod
